@@ -264,7 +264,7 @@ Definition render_struct_line (f : fview) (c : ictx) (hint : type_hint) (idx : n
         Ok ([member_tok idnt; P1 ":"] ++ right ++ [comma])
       else if is_from k then
         let or_ := MNamed (f_ident (fv_idx f)) in
-        right <- get_stuff a obj get_field_path c (if is_variant c then or_ else fm) ;;
+        right <- get_stuff a obj get_field_path c (if is_variant c then or_ else MIndex (fv_idx f)) ;;
         Ok ([TIdent ident; P1 ":"] ++ right ++ [comma])
       else Ok []
   | MIndex index, Some a =>
@@ -274,7 +274,7 @@ Definition render_struct_line (f : fview) (c : ictx) (hint : type_hint) (idx : n
         right <- get_action_or a (Some field_path) c (obj ++ field_path) ;;
         Ok (right ++ [comma])
       else if is_into_existing k && hint_tu hint then
-        n <- get_field_name_or a fm ;;
+        n <- get_field_name_or a (MIndex idx) ;;
         let left := get_field_path n in
         let rfp := get_child_field_path fm in
         right <- get_action_or a (Some rfp) c (obj ++ rfp) ;;
